@@ -225,7 +225,7 @@ func runSequence(seq int) {
 	cfg := wallet.NewConfig()
 	cfg.WalletDir = dir
 	cfg.EnableWalletAPI = true
-	cfg.EnableSeedAPI = true
+	cfg.EnableSeedAPI = seq%5 != 4 // every fifth sequence: the seed is never given out
 	cfg.CryptoType = []crypto.CryptoType{crypto.CryptoTypeSha256Xor, crypto.CryptoTypeScryptChacha20poly1305Insecure}[rng.Intn(2)]
 	s, err := wallet.NewService(cfg)
 	if err != nil {
@@ -270,7 +270,7 @@ func runSequence(seq int) {
 			return ids[rng.Intn(len(ids))]
 		}
 		r := rec{"fn": "wstep", "seq": seq, "step": step, "crypto": string(cfg.CryptoType), "op": "", "id": "", "res": "ok", "err": "", "k": 0,
-			"rightPw": true, "wasEncrypted": false, "unlockRestores": true, "wrongPwRejected": true, "onChange": false, "idTaken": false, "updKind": "", "seedMatches": false}
+			"rightPw": true, "wasEncrypted": false, "unlockRestores": true, "wrongPwRejected": true, "onChange": false, "idTaken": false, "updKind": "", "seedMatches": false, "seedAPI": cfg.EnableSeedAPI}
 		ulBefore := []string{}
 		for id := range unloaded {
 			ulBefore = append(ulBefore, id)
